@@ -201,6 +201,21 @@ CHECKS["C15"] = (
     "DESIGN.md §3 C15",
 )
 
+CHECKS["C20"] = (
+    "exploration",
+    "bounded-exhaustive enumeration of field lattices x variants x genealogy interleavings x grid placements against exact quadratic forms and self-validating quadrature",
+    "Every field on the lattice {-1,0.5,2}^N (N<=5 quick, <=7 thorough; generic fields up to N=50) x precisions x "
+    "plain / weighted / time-aware variants (all interleavings <=5-6 tips x 2 tree shapes x ties x rescale) x "
+    "single/batched shapes: GMRF() against the quadratic form of its own published precision matrix; "
+    "GMRFGammaIntegrated / ConstantCoalescentIntegrated against a log-domain quadrature of the product of the "
+    "shipped densities (cross-checked with mpmath each run, 1e-8); skyride and skygrid sufficient statistics "
+    "and coalescent counts must reproduce log_prob to 1e-12 on every interleaving (<=5 tips quick, <=7 "
+    "thorough) x every multiset placement of up to 3 grid points x batched/unbatched routes, including batch "
+    "rows whose event orders differ. ~0.43 M evaluations quick, 3.9 M thorough.",
+    "Agreement claimed at the enumerated points only; GMRFCovariate and float32 not covered.",
+    "DESIGN.md §3 C20",
+)
+
 NOT_APPLICABLE = {}
 
 PENDING_REASON = ("check not built yet in this revision (planned in DESIGN.md §3); "
